@@ -1,2 +1,4 @@
+from bounded import pool_schedules
 from bounded import c12_lifecycle
 EXTRA_CHECKS = [c12_lifecycle.run]
+EXTRA_CHECKS = list(EXTRA_CHECKS) + [pool_schedules.run]
